@@ -1,5 +1,6 @@
 import Copia.Driver.C17
 import Copia.Driver.C18
+import Copia.Driver.C19
 /-!
 Line-protocol driver: one query per input line, one canonical answer per output line.
 Built as `lean_exe copia_model` (nothing it imports touches Mathlib).
@@ -11,6 +12,7 @@ def dispatch (line : String) : String :=
   let r : Option String :=
     match toks with
     | "ck" :: _ => C17.handle toks
+    | "glob" :: _ | "excl" :: _ | "plan" :: _ | "nt" :: _ | "parse" :: _ => C19.handle toks
     | "rp" :: _ | "rec" :: _ => C18.handle toks
     | _ => none
   r.getD "BAD-QUERY"
